@@ -525,13 +525,14 @@ structure SplitOk (d : Nat → Nat → Int) (split : List Nat → Clusters) : Pr
   ok : ∀ data : List Nat, data.Nodup → 2 ≤ data.length →
     (∀ x, (ptsOf (split data)).count x = data.count x) ∧
     (∀ kv ∈ split data, kv.1 ∈ kv.2) ∧
-    (∀ kv ∈ split data, ∀ p ∈ kv.2, ∀ kv' ∈ split data, d p kv.1 ≤ d p kv'.1)
+    (∀ kv ∈ split data, ∀ p ∈ kv.2, ∀ kv' ∈ split data, d p kv.1 ≤ d p kv'.1) ∧
+    (split data).length ≤ 2
 
 /-- INDEPENDENT SPEC of one split: `part` partitions `parent`, every medoid lies in its own cluster, and no
     point of the parent is closer to a SIBLING's medoid than to its own -/
 def ChildOk (d : Nat → Nat → Int) (parent : List Nat) (part : Clusters) : Prop :=
   (∀ x, (ptsOf part).count x = parent.count x) ∧ (∀ kv ∈ part, kv.1 ∈ kv.2) ∧
-    (∀ kv ∈ part, ∀ p ∈ kv.2, ∀ kv' ∈ part, d p kv.1 ≤ d p kv'.1)
+    (∀ kv ∈ part, ∀ p ∈ kv.2, ∀ kv' ∈ part, d p kv.1 ≤ d p kv'.1) ∧ part.length ≤ 2
 
 /-- the clusters one entry of `current_clusters` contributes to the tier -/
 def childrenOf (split : List Nat → Clusters) (e : Option Nat × List Nat) : Clusters :=
@@ -643,7 +644,7 @@ theorem childrenOf_ok (d : Nat → Nat → Int) (split : List Nat → Clusters) 
   by_cases hs : e.2.length < 2
   · obtain ⟨key, hk, hkm⟩ := keyOf_mem e.1 e.2 hne hm
     simp only [hs, if_true, hk]
-    refine ⟨by simp [ptsOf], ?_, ?_⟩
+    refine ⟨by simp [ptsOf], ?_, ?_, by simp⟩
     · intro kv hkv; simp at hkv; subst hkv; exact hkm
     · intro kv hkv p _ kv' hkv'
       simp at hkv hkv'; subst hkv; subst hkv'; exact Int.le_refl _
@@ -826,14 +827,18 @@ namespace C17.KMed
 theorem splitOk_of_createKMedoids (d : Nat → Nat → Int) (hrefl : ∀ x, d x x = 0) (hpos : ∀ x y, x ≠ y → 0 < d x y)
     (split : List Nat → Clusters) (init : List Nat → List Nat) (ord : Nat → List Nat → List Nat)
     (hord : ∀ i l, (ord i l).Perm l) (hinit : ∀ data, ∀ m ∈ init data, m ∈ data)
+    (hinit2 : ∀ data, (init data).length ≤ 2)
     (hsplit : ∀ data, createKMedoids d data (some (init data)) ord = some (split data)) : SplitOk d split := by
   constructor
   intro data _ _
   have h := hsplit data
-  refine ⟨(result_is_partition d data ord hord (init data) (hinit data) (split data) h).1, ?_, ?_⟩
+  refine ⟨(result_is_partition d data ord hord (init data) (hinit data) (split data) h).1, ?_, ?_, ?_⟩
   · exact key_in_own_cluster d data ord hord (init data) (hinit data) (split data) h (fun x _ => hrefl x)
       (fun x _ y _ hxy => hpos x y hxy)
   · exact nearest_own_medoid d data ord hord (init data) (hinit data) (split data) h
+  · have := at_most_k_clusters d data ord hord (init data) (hinit data) (split data) h
+    have := hinit2 data
+    omega
 
 /-- non-vacuity: eleven points on a line at 0..3 | 10..13 | 30..32, splits by the model of `create_kmedoids`
     started from the first two points of the data: two tiers, a third would have no cluster above two points -/
@@ -847,5 +852,153 @@ example : createHier (fun _ => exSplit) (List.range 11) 4 =
 
 example : specHier exD11 (List.range 11) [List.range 11] (createHier (fun _ => exSplit) (List.range 11) 4) = true := by
   decide
+
+end C17.KMed
+
+/-! ### the model's hierarchy passes the executable per-split check `specHier` -/
+
+namespace C17.KMed
+
+theorem specPartition_of (data : List Nat) (cl : Clusters) (hc : ∀ x, (ptsOf cl).count x = data.count x)
+    (hk : (keysOf cl).Nodup) (hne : ∀ kv ∈ cl, kv.2 ≠ []) : specPartition data cl = true := by
+  have hperm : (cl.flatMap (·.2)).Perm data := List.perm_iff_count.mpr hc
+  unfold specPartition
+  simp only [Bool.and_eq_true, beq_iff_eq, List.all_eq_true, List.contains_iff_mem, nodupB_iff,
+    Bool.not_eq_true', List.isEmpty_eq_false_iff]
+  exact ⟨⟨⟨⟨hperm.length_eq, fun x _ => hc x⟩, fun x hx => hperm.mem_iff.mp hx⟩, hk⟩, hne⟩
+
+theorem ChildOk.pts_sub {d : Nat → Nat → Int} {par : List Nat} {part : Clusters} (h : ChildOk d par part) :
+    ∀ kv ∈ part, ∀ x ∈ kv.2, x ∈ par := by
+  intro kv hkv x hx
+  have : x ∈ ptsOf part := List.mem_flatMap.mpr ⟨kv, hkv, hx⟩
+  rw [← List.count_pos_iff, h.1 x] at this
+  exact List.count_pos_iff.mp this
+
+theorem inside_iff (child parent : List Nat) : inside child parent = true ↔ ∀ x ∈ child, x ∈ parent := by
+  simp [inside, List.all_eq_true]
+
+/-- what the executable check demands of the sibling clusters of one parent -/
+def GoodSibs (d : Nat → Nat → Int) (par : List Nat) (sibs : Clusters) : Prop :=
+  specNearest d sibs = true ∧ sibs.length ≤ 2 ∧ specPartition par sibs = true
+
+theorem goodSibs_of_childOk (d : Nat → Nat → Int) (par : List Nat) (part : Clusters) (hp : par.Nodup)
+    (h : ChildOk d par part) : GoodSibs d par part := by
+  refine ⟨?_, h.2.2.2, ?_⟩
+  · unfold specNearest
+    simp only [List.all_eq_true, decide_eq_true_eq]
+    exact h.2.2.1
+  · apply specPartition_of par part h.1
+    · exact keys_nodup_of_pts_nodup part (nodup_of_count_eq hp h.1) h.2.1
+    · intro kv hkv hnil
+      have := h.2.1 kv hkv
+      rw [hnil] at this; simp at this
+
+theorem filter_eq_nil_of {α : Type} (p : α → Bool) (l : List α) (h : ∀ x ∈ l, p x = false) : l.filter p = [] := by
+  rw [List.filter_eq_nil_iff]
+  intro x hx; rw [h x hx]; simp
+
+theorem filter_eq_self_of {α : Type} (p : α → Bool) (l : List α) (h : ∀ x ∈ l, p x = true) : l.filter p = l := by
+  rw [List.filter_eq_self]; exact h
+
+theorem forall₂_key_mem (d : Nat → Nat → Int) : ∀ (parents : List (List Nat)) (parts : List Clusters),
+    List.Forall₂ (ChildOk d) parents parts → ∀ kv ∈ parts.flatten, kv.1 ∈ kv.2 := by
+  intro parents parts h
+  induction h with
+  | nil => intro kv hkv; simp at hkv
+  | @cons P Q Ps Qs hPQ _ ih =>
+    intro kv hkv
+    simp only [List.flatten_cons, List.mem_append] at hkv
+    rcases hkv with hkv | hkv
+    · exact hPQ.2.1 kv hkv
+    · exact ih kv hkv
+
+/-- in a tier made of one valid split per parent (parents pairwise disjoint), the clusters lying inside a parent
+    are exactly that parent's split — so the executable check finds the right siblings -/
+theorem sibs_of_forall₂ (d : Nat → Nat → Int) : ∀ (parents : List (List Nat)) (parts : List Clusters),
+    List.Forall₂ (ChildOk d) parents parts → parents.flatten.Nodup →
+    ∀ par ∈ parents, GoodSibs d par (parts.flatten.filter (fun kv => inside kv.2 par)) := by
+  intro parents parts h
+  induction h with
+  | nil => intro _ par hpar; simp at hpar
+  | @cons P Q Ps Qs hPQ htail ih =>
+    intro hnd par hpar
+    simp only [List.flatten_cons] at hnd ⊢
+    obtain ⟨hP, hPs, hdisj⟩ := List.nodup_append.mp hnd
+    rw [List.filter_append]
+    -- clusters of the tail parts are non-empty and lie in a tail parent
+    have htailpts : ∀ kv ∈ Qs.flatten, ∃ x ∈ kv.2, x ∈ Ps.flatten := by
+      intro kv hkv
+      obtain ⟨par', hpar', hin⟩ := childOk_refines d Ps Qs htail kv hkv
+      have hkey : kv.1 ∈ kv.2 := forall₂_key_mem d Ps Qs htail kv hkv
+      exact ⟨kv.1, hkey, List.mem_flatten.mpr ⟨par', hpar', hin kv.1 hkey⟩⟩
+    rcases List.mem_cons.mp hpar with hpar | hpar
+    · subst hpar
+      have h1 : Q.filter (fun kv => inside kv.2 par) = Q :=
+        filter_eq_self_of _ Q (fun kv hkv => (inside_iff _ _).mpr (hPQ.pts_sub kv hkv))
+      have h2 : Qs.flatten.filter (fun kv => inside kv.2 par) = [] := by
+        apply filter_eq_nil_of
+        intro kv hkv
+        obtain ⟨x, hx, hxP⟩ := htailpts kv hkv
+        rw [← Bool.not_eq_true, inside_iff]
+        intro hall
+        exact hdisj x (hall x hx) x hxP rfl
+      rw [h1, h2, List.append_nil]
+      exact goodSibs_of_childOk d par Q hP hPQ
+    · have h1 : Q.filter (fun kv => inside kv.2 par) = [] := by
+        apply filter_eq_nil_of
+        intro kv hkv
+        have hkey := hPQ.2.1 kv hkv
+        rw [← Bool.not_eq_true, inside_iff]
+        intro hall
+        exact hdisj kv.1 (hPQ.pts_sub kv hkv kv.1 hkey) kv.1 (List.mem_flatten.mpr ⟨par, hpar, hall kv.1 hkey⟩) rfl
+      rw [h1, List.nil_append]
+      exact ih hPs par hpar
+
+end C17.KMed
+
+namespace C17.KMed
+
+theorem flatten_map_snd (tier : Clusters) : (tier.map (·.2)).flatten = ptsOf tier := by
+  unfold ptsOf; rw [List.flatMap_def]
+
+/-- the independent (decomposition) form of the contract implies the executable check the driver runs on the
+    implementation's tiers -/
+theorem tiersOk_specHier (d : Nat → Nat → Int) (points : List Nat) (hp : points.Nodup) :
+    ∀ (tiers : List Clusters) (parents : List (List Nat)), (∀ x, parents.flatten.count x = points.count x) →
+    TiersOk d points parents tiers → specHier d points parents tiers = true := by
+  intro tiers
+  induction tiers with
+  | nil => intro parents _ _; simp [specHier]
+  | cons tier rest ih =>
+    intro parents hpar hT
+    obtain ⟨⟨parts, htier, hF⟩, hcount, hkeys, hrest⟩ := hT
+    have hkeymem : ∀ kv ∈ tier, kv.1 ∈ kv.2 := by rw [htier]; exact forall₂_key_mem d parents parts hF
+    have hne : ∀ kv ∈ tier, kv.2 ≠ [] := by
+      intro kv hkv hnil
+      have := hkeymem kv hkv
+      rw [hnil] at this; simp at this
+    simp only [specHier, Bool.and_eq_true]
+    refine ⟨⟨specPartition_of points tier hcount hkeys hne, ?_⟩, ?_⟩
+    · unfold specTier
+      simp only [Bool.and_eq_true, List.all_eq_true, List.any_eq_true, decide_eq_true_eq]
+      constructor
+      · intro kv hkv
+        rw [htier] at hkv
+        obtain ⟨par, hpar', hin⟩ := childOk_refines d parents parts hF kv hkv
+        exact ⟨par, hpar', (inside_iff _ _).mpr hin⟩
+      · intro par hpar'
+        have := sibs_of_forall₂ d parents parts hF (nodup_of_count_eq hp hpar) par hpar'
+        rw [← htier] at this
+        exact ⟨⟨this.1, this.2.1⟩, this.2.2⟩
+    · apply ih (tier.map (·.2)) _ hrest
+      intro x
+      rw [flatten_map_snd]; exact hcount x
+
+/-- **C17 (hierarchical k-medoids)**: the model's hierarchy passes exactly the executable per-split check that the
+    driver evaluates on the tiers returned by the real `create_hierarchical_kmedoids` -/
+theorem createHier_meets_spec (d : Nat → Nat → Int) (splits : Nat → List Nat → Clusters) (S : ∀ i, SplitOk d (splits i))
+    (points : List Nat) (hp : points.Nodup) (maxTiers : Nat) :
+    specHier d points [points] (createHier splits points maxTiers) = true :=
+  tiersOk_specHier d points hp _ [points] (by simp) (createHier_contract d splits S points hp maxTiers)
 
 end C17.KMed
